@@ -40,16 +40,33 @@ claimed = {
          "histories over the complete API incl. handle-level sequences on all prefix types with forced boundary lengths; any panic located in the crate is a violation; iterators are step-bounded",
          "checking profile only in the quick tier"),
 }
-planned = {
- "C05": "check under construction in this session (view-pair generator not committed yet)",
- "C06": "check under construction in this session (view-pair generator not committed yet)",
- "C07": "check under construction in this session (view-pair generator not committed yet)",
- "C08": "check under construction in this session (view-pair generator not committed yet)",
- "C13": "check under construction in this session",
- "C14": "check under construction in this session",
- "C17": "check under construction in this session",
- "C19": "check under construction in this session",
-}
+claimed.update({
+ "C05": ("differential property testing of view pairs against a model merge (tags, values, order)",
+         "generated pairs of views (two maps of different value types with leftover shapes, one map twice, map vs PrefixSet; roots reached by generated navigation programs: stored, branching, virtual, nested, disjoint) - union items are compared with the model's merge as a full sequence incl. tags, values and accessors; union_mut must yield the same prefixes and presence pattern",
+         "trusted: harness model; entry set of each operand is cross-checked against view.iter() and mismatching pairs are discarded (counted)"),
+ "C06": ("differential property testing of view pairs against model intersection",
+         "same pair generator as C05; intersection and intersection_mut compared as full sequences with the model; disjoint sub-views of one map must give an empty result",
+         "trusted: harness model"),
+ "C07": ("differential property testing of view pairs against model (covering) difference",
+         "same pair generator; difference, covering_difference and their *_mut twins compared as full sequences with the model definitions (b empty, b holding the zero-length prefix, b's root below/beside a's root are measured classes)",
+         "trusted: harness model"),
+ "C08": ("property testing of LPM annotations against a linear-scan LPM over the other view's entries",
+         "every Left/Right union item and every difference / difference_mut item: the reported match must equal the longest entry of the other view covering the item (None iff none), over the relative-root-position classes equal / nested / disjoint",
+         "trusted: harness model"),
+ "C13": ("differential (mutable vs read-only twin) + write-through property testing",
+         "each mutable traversal is compared with its read-only twin; all yielded references are held simultaneously, then distinct values are written; afterwards contents, key set, len, walked shape and other read APIs are compared; *_mut set operations additionally on generated view pairs",
+         "trusted: harness model"),
+ "C14": ("property testing of reference identity over split forests + threaded-vs-sequential differential + generated client programs checked with rustc",
+         "runtime: addresses/keys of all simultaneously live &mut over generated split plans are pairwise distinct, views never overlap, concurrent workers on disjoint views give the sequential result; compile time: ~1500 generated programs (two live exclusive handles, shared across exclusive, mutation while borrowed, use after move, escape, threads, Clone/Copy, auto-trait grid with Rc / Cell / MutexGuard values) must be rejected while their benign siblings compile",
+         "native threads do not control the schedule (Miri does, in the thorough tier); the program grammar is finite (two handles per conflict)"),
+ "C17": ("exhaustive enumeration on the 8-bit type + property testing on the other 13 types against u128 bit arithmetic and the default trait methods",
+         "all 2304 values x 2304 values of (u8,u8) incl. host bits and all bit indices 0..=255 are enumerated; other types get boundary-biased generated triples with controlled common-prefix length; overrides are compared with the crate's default methods through a forwarding newtype; every call under catch_unwind with overflow checks",
+         "exhaustive only for (u8,u8); release-profile (wrapping) run only in the thorough tier"),
+ "C19": ("metamorphic property testing of ==, clone, collect, serde round-trip",
+         "a generated state is compared with derived states (permuted rebuild, leftover debris, strict prefix/suffix/sub-sequence, empty, one value changed, host-bit-only change, independent, clone); oracle = equality of the (stored prefix, value) sequences; reflexive/symmetric/transitive; clone independence both ways under a generated suffix; collect and serde_json round-trips",
+         "serde round-trips only for key types with serde support in this build"),
+})
+planned = {}
 import os
 extra = {}
 if os.path.exists('/verif/manifest_extra.json'):
